@@ -37,7 +37,7 @@ class Instance:
     """One harness instance = one bounded obligation."""
 
     def __init__(self, name, source, expect_panic=False, descr="", bounds="", timeout=600, mem_gb=24,
-                 contract="", function=""):
+                 contract="", function="", math=None):
         self.name = name
         self.source = source            # Rust text declaring the harness (macro invocation)
         self.expect_panic = expect_panic
@@ -47,6 +47,7 @@ class Instance:
         self.mem_gb = mem_gb
         self.contract = contract
         self.function = function
+        self.math = math              # alternative math model file (kani/<math>.c)
 
 
 class Scratch:
@@ -104,12 +105,12 @@ class Scratch:
                 self.meta[h["pretty_name"].split("::")[-1]] = h
         return True
 
-    def link(self, name):
+    def link(self, name, math=None):
         h = self.meta[name]
         out = os.path.join(self.dir, name + ".goto")
         devnull = subprocess.DEVNULL
         steps = [
-            ["goto-cc", h["goto_file"], KLIB, MATH, "-o", out],
+            ["goto-cc", h["goto_file"], KLIB, (os.path.join(VERIF, "kani", math + ".c") if math else MATH), "-o", out],
             ["goto-cc", out, "--function", h["mangled_name"], "-o", out],
             ["goto-instrument", "--add-library", "--no-malloc-may-fail", out, out],
             ["goto-instrument", "--generate-function-body-options", "assert-false-assume-false",
@@ -131,7 +132,7 @@ class Scratch:
             res.update(status="undecided", reason="harness not found in Kani metadata", wall_s=0.0)
             return res
         try:
-            goto, h = self.link(inst.name)
+            goto, h = self.link(inst.name, inst.math)
         except Exception as e:
             res.update(status="undecided", reason=str(e)[:500], wall_s=time.time() - t0)
             return res
